@@ -132,8 +132,10 @@ void Log::debugLog(std::string&& buf) {
   }
 
   auto* q = state_.getCurrentQueue();
+  // buf is moved from below; take its size first
+  const size_t size = buf.size();
   q->emplace_back(std::move(buf));
-  state_.curSize += buf.size();
+  state_.curSize += size;
   state_.cv.notify_one();
 }
 
